@@ -226,62 +226,67 @@ def r5(ctx, F, fn):
 
 
 def r6(ctx, F, fn):
-    body = fn["hir"]["body"]
-    env = hir.Env(fn["hir"], F)
-    sym = hir.Sym(env, F)
-    sites = 0
-    for call, anc in hir.calls(body, "GameState::set_en_passant"):
-        arg = sym(call["args"][0])
-        if hir.sym_int(arg) == 8:
-            continue
-        sites += 1
-        g = hir.guards_of(call, body, sym) or []
-        arm = [x for x in g if x[0] == "arm" and isinstance(x[2], tuple) and x[2][0] == "variant"]
-        in_normal = bool(arm) and arm[0][2][1].endswith("Move::Normal")
-        ren = {}
-        for n, a2 in hir.walk(body):
-            if n.get("k") == "Match":
-                for a in n["arms"]:
-                    if any(x is call for x, _ in hir.walk(a["body"])) and a["pat"].get("k") == "PStruct":
-                        ren = surgery.field_renames(a["pat"])
-        conds = [(hir.fmt(surgery.rename(x[1], ren), 200), x[2]) for x in g if x[0] == "if"]
-        texts = [c[0] for c in conds if c[1] is True]
-        pawn = any("m.piece.piece_type == PieceType::Pawn" in t for t in texts)
-        two = any(t in ("(<impl i8>::abs((Position::row(m.end) - Position::row(m.start))) == 2)",
-                        "(<impl i8>::abs((Position::row(m.start) - Position::row(m.end))) == 2)") for t in texts)
-        ctx.check("C02.R6", "recorded-only-for-pawn-double-step", in_normal and pawn and two, fn=PUSH, file=fn["file"], line=hir.line(call),
-                  what="an en-passant file may only be recorded for a pawn that moved two rows",
-                  expected="piece_type == Pawn && |end.row - start.row| == 2", found=conds)
-        ok, why = neighbour_pawn_guard(call, fn, F)
-        ctx.check("C02.R6", "recorded-only-beside-enemy-pawn", ok, fn=PUSH, file=fn["file"], line=hir.line(call),
-                  what="an en-passant file is recorded without an enemy pawn beside the pushed pawn", found=why)
-        # the squares looked at: (end.row, end.col -/+ 1), each guarded by the board edge; enemy = owner != piece.owner
-        reads = []
-        for c in enclosing_conditions(call, fn["hir"]):
-            for n in dependence_nodes(c, fn["hir"]):
-                if n.get("k") == "MethodCall" and (hir.callee_of(n) or "").endswith("Game::get_position"):
-                    sq = surgery.rename(sym(n["args"][0]), ren)
-                    gg = [(hir.fmt(surgery.rename(x[1], ren), 120), x[2]) for x in (hir.guards_of(n, body, sym) or []) if x[0] == "if"]
-                    reads.append((hir.fmt(sq, 160), [t for t in gg if "col" in t[0]]))
-        want = {("Position::new_assert(Position::row(m.end), (Position::col(m.end) - 1))", "(Position::col(m.end) > 0)"),
-                ("Position::new_assert(Position::row(m.end), (Position::col(m.end) + 1))", "(Position::col(m.end) < 7)")}
-        got = {(r[0], r[1][0][0] if r[1] and r[1][0][1] is True else None) for r in reads}
-        ctx.check("C02.R6", "neighbour-squares-are-(end.row,end.col+-1)-inside-the-board", got == want, fn=PUSH, file=fn["file"],
-                  line=hir.line(call), what="the squares tested for an enemy pawn must be the two beside the destination, each only "
-                                            "if it is on the board", expected=sorted(want), found=sorted(got, key=str))
-        owner_cmps = []
-        for c in enclosing_conditions(call, fn["hir"]):
-            for n in dependence_nodes(c, fn["hir"]):
-                if n.get("k") == "Binary" and n["op"] in ("!=", "=="):
-                    l, r = hir.fmt(surgery.rename(sym(n["l"]), ren), 80), hir.fmt(surgery.rename(sym(n["r"]), ren), 80)
-                    if "m.piece.owner" in (l, r) and l.endswith(".owner") and r.endswith(".owner"):
-                        owner_cmps.append(n["op"])
-        enemy = len(owner_cmps) >= max(1, len(reads)) and all(o == "!=" for o in owner_cmps)
-        ctx.check("C02.R6", "neighbour-is-an-enemy-pawn", enemy, fn=PUSH, file=fn["file"], line=hir.line(call),
-                  what="each neighbouring pawn tested must belong to the opponent of the pawn that moved",
-                  expected="owner != piece.owner at each of the %d board reads" % len(reads), found=owner_cmps)
-        argt = hir.fmt(surgery.rename(arg, ren), 80)
-        ctx.check("C02.R6", "file-recorded-is-the-pawn's-file", argt in ("Position::col(m.start)", "Position::col(m.end)"),
-                  fn=PUSH, file=fn["file"], line=hir.line(call), what="the recorded file must be the file of the pushed pawn",
-                  found=argt)
-    ctx.floor("C02.R6", "en-passant recording sites in push", sites, 1)
+    """En-passant recording, decided by evaluating what `push` leaves in the en-passant nibble for a table of cases:
+    move kind x piece x owner x (rows moved) x file x content of the two squares beside the destination."""
+    from .common import chess_evalcalls
+    PT_, PCE = "chess::piece::PieceType::", "chess::piece::Piece"
+    ex = hir.Exec(fn["hir"], F)
+    ex.setters = {"chess::gamestate::GameState::set_en_passant": ("ep", None)}
+    try:
+        ex.run()
+    except hir.Unsupported as e:
+        ctx.check("C02.R6", "push-summarisable", False, fn=PUSH, file=fn["file"], nontrivial=False,
+                  what="Game::push is no longer a loop-free update that can be summarised: %s" % e)
+        return
+    eps = [v for k, v in ex.store.items() if isinstance(k, tuple) and k[0] == "fieldstore" and k[2] == "ep"]
+    ctx.check("C02.R6", "en-passant-nibble-written-on-a-state-local", len(eps) == 1, fn=PUSH, file=fn["file"], nontrivial=False,
+              what="push must reset/record the en-passant file on its copy of the state", found=len(eps))
+    if len(eps) != 1:
+        return
+    EP = eps[0]
+    D = discr_map(F)
+    mvname = fn["hir"]["params"][1]["pat"].get("name")
+    SOME, NONE = "std::prelude::v1::Some", ("variant", "std::prelude::v1::None")
+
+    def piece(kind, owner):
+        return ("struct", PCE, (("owner", ("variant", PL + owner)), ("piece_type", ("variant", PT_ + kind))))
+    MV = "chess::move_struct::Move::"
+    bad = []
+    n = 0
+    contents = {"empty": lambda me: NONE, "enemy pawn": lambda me: ("ctor", SOME, (piece("Pawn", "Black" if me == "White" else "White"),)),
+                "own pawn": lambda me: ("ctor", SOME, (piece("Pawn", me),)),
+                "enemy rook": lambda me: ("ctor", SOME, (piece("Rook", "Black" if me == "White" else "White"),))}
+    for owner, r1, r2s in (("White", 1, (3, 2)), ("Black", 6, (4, 5))):
+        for kind in ("Pawn", "Rook"):
+            for r2 in r2s:
+                for c in (0, 4, 7):
+                    for ln, lf in contents.items():
+                        for rn, rf in contents.items():
+                            board = {(r2, c - 1): lf(owner), (r2, c + 1): rf(owner)}
+                            mv = ("struct", MV + "Normal", (("captured_piece", NONE), ("end", ("pos", r2, c)), ("piece", piece(kind, owner)), ("start", ("pos", r1, c))))
+                            a = {("var", mvname): mv, ("field", ("var", "self"), "current_player"): ("variant", PL + owner)}
+                            v = hir.fold(EP, a, D, hir.table_helpers(F), chess_evalcalls(board))
+                            near = [x for x, cc in ((ln, c - 1), (rn, c + 1)) if 0 <= cc <= 7]
+                            want = c if (kind == "Pawn" and abs(r2 - r1) == 2 and "enemy pawn" in near) else 8
+                            n += 1
+                            if v != ("lit", want):
+                                bad.append({"move": "%s %s (%d,%d)->(%d,%d)" % (owner, kind, r1, c, r2, c), "left": ln, "right": rn,
+                                            "en passant": hir.fmt(v, 100), "expected": want})
+    ctx.check("C02.R6", "recorded-exactly-for-a-double-step-beside-an-enemy-pawn", not bad, fn=PUSH, file=fn["file"], line=fn["span"][0],
+              what="after a Normal move the en-passant file must be the moved pawn's file exactly when a pawn moved two rows and an "
+                   "enemy pawn stands on a square beside its destination that is on the board, and 8 (none) otherwise",
+              expected="pawn && |rows| == 2 && enemy pawn on (end.row, end.col -/+ 1) => file, else 8", found=bad[:3] or "%d cases" % n)
+    # the other move kinds never record a file
+    bad2 = []
+    for vname, mv in (("Promotion", ("struct", MV + "Promotion", (("captured_piece", NONE), ("end", ("pos", 7, 3)), ("new_piece", ("variant", PT_ + "Queen")),
+                                                                   ("owner", ("variant", PL + "White")), ("start", ("pos", 6, 3))))),
+                      ("EnPassant", ("struct", MV + "EnPassant", (("end_col", ("lit", 3)), ("owner", ("variant", PL + "White")), ("start_col", ("lit", 4))))),
+                      ("CastlingShort", ("struct", MV + "CastlingShort", (("owner", ("variant", PL + "White")),))),
+                      ("CastlingLong", ("struct", MV + "CastlingLong", (("owner", ("variant", PL + "Black")),)))):
+        own = dict(mv[2]).get("owner", ("variant", PL + "White"))
+        v = hir.fold(EP, {("var", mvname): mv, ("field", ("var", "self"), "current_player"): own}, D, hir.table_helpers(F), chess_evalcalls({}))
+        if v != ("lit", 8):
+            bad2.append((vname, hir.fmt(v, 100)))
+    ctx.check("C02.R6", "other-move-kinds-reset-the-file", not bad2, fn=PUSH, file=fn["file"],
+              what="promotions, en-passant captures and castling leave no en-passant file behind", expected="8 (none)", found=bad2 or "ok")
+    ctx.floor("C02.R6", "en-passant cases evaluated", n, 100)
